@@ -263,7 +263,8 @@ class IpmiMsg(object):
         The password/key is 0 padded to 16-bytes for all specified
         authentication types.
         """
-        password = self.session._auth_password
+        # no password configured: the null password of the anonymous login
+        password = self.session._auth_password or b''
         if isinstance(password, str):
             password = str.encode(password)
         return password.ljust(16, b'\x00')
